@@ -6,6 +6,7 @@ pub mod c04;
 pub mod c06;
 pub mod c07;
 pub mod c08;
+pub mod c09;
 pub mod c10;
 pub mod c12;
 pub mod c13;
@@ -22,6 +23,7 @@ pub fn all() -> Vec<Box<dyn Property>> {
         Box::new(c06::C06),
         Box::new(c07::C07),
         Box::new(c08::C08),
+        Box::new(c09::C09),
         Box::new(c10::C10),
         Box::new(c12::C12),
         Box::new(c13::C13),
